@@ -402,9 +402,9 @@ def producer_reads_plan_fields(ctx):
     import protocov
     rule = 'producer-reads-every-field'
     n = protocov.check_encoder_reads(ctx, 'LogicalPlan', SP + 'producer::rel::to_substrait_rel', 'datafusion_expr::logical_plan::plan::LogicalPlan', rule=rule,
-                                     exempt=PRODUCER_EXEMPT, follow=PRODUCER_FOLLOW, per_variant=False)
+                                     exempt=PRODUCER_EXEMPT, follow=PRODUCER_FOLLOW, per_variant=False, follow_derived=True)
     n += protocov.check_encoder_reads(ctx, 'Expr', SP + 'producer::expr::to_substrait_rex', 'datafusion_expr::expr::Expr', rule=rule,
-                                      exempt=PRODUCER_EXEMPT, follow=PRODUCER_FOLLOW, per_variant=False)
+                                      exempt=PRODUCER_EXEMPT, follow=PRODUCER_FOLLOW, per_variant=False, follow_derived=True)
     ctx.floor(rule, 'plan / expression structs the producer reads', n, 20)
     import common
     st = ctx.st
